@@ -385,6 +385,64 @@ func (o *out) fcFieldCopies(dir, recv, fn, lPrefix, lStruct, rPrefix, rStruct, c
 	o.f("Definition %s : list (nat * nat) := [%s]. (* %s:%s.%s : %s *)\n", coqName, strings.Join(pairs, "; "), dir, recv, fn, strings.Join(expl, "; "))
 }
 
+// fcReturns: the (single) result expressions of every return statement of the function, in source order, as a list.
+func (o *out) fcReturns(fs funcSpec) {
+	p, fd := findFunc(fs.dir, fs.recv, fs.name)
+	if fd == nil {
+		o.brokenDef(fs.coqName, "function "+fs.dir+":"+fs.recv+"."+fs.name+" not found")
+		return
+	}
+	o.fcBitLeaves(&fs)
+	var items, src []string
+	t := o.newTr(p, fs)
+	ast.Inspect(fd.Body, func(n ast.Node) bool {
+		if _, ok := n.(*ast.FuncLit); ok {
+			return false
+		}
+		if rs, ok := n.(*ast.ReturnStmt); ok && len(rs.Results) == 1 {
+			items = append(items, t.expr(rs.Results[0]))
+			src = append(src, printNode(p.fset, rs.Results[0]))
+		}
+		return true
+	})
+	if t.err != nil || len(items) == 0 {
+		why := "no return statements"
+		if t.err != nil {
+			why = t.err.Error()
+		}
+		o.brokenDef(fs.coqName, why)
+		return
+	}
+	o.f("Definition %s %s : %s :=\n  [%s].\n(* from %s:%s.%s : return values in source order: %s *)\n", fs.coqName, fs.params, fs.retType, strings.Join(items, "; "),
+		fs.dir, fs.recv, fs.name, strings.ReplaceAll(strings.Join(src, " | "), "*)", "* )"))
+}
+
+// fcArgIs emits a bool: is argument #arg of the nth call to callee printed exactly as `want`?
+func (o *out) fcArgIs(dir, recv, fn, callee string, nth, arg int, want, coqName string) {
+	p, fd := findFunc(dir, recv, fn)
+	if fd == nil {
+		o.brokenDef(coqName, "function "+dir+":"+recv+"."+fn+" not found")
+		return
+	}
+	k, got, seen := 0, "", false
+	ast.Inspect(fd.Body, func(n ast.Node) bool {
+		ce, ok := n.(*ast.CallExpr)
+		if !ok || printNode(p.fset, ce.Fun) != callee {
+			return true
+		}
+		if k == nth && arg < len(ce.Args) && !seen {
+			got, seen = printNode(p.fset, ce.Args[arg]), true
+		}
+		k++
+		return true
+	})
+	if !seen {
+		o.brokenDef(coqName, fmt.Sprintf("no argument %d of call #%d to %s in %s", arg, nth, callee, fn))
+		return
+	}
+	o.f("Definition %s : bool := %v. (* %s:%s.%s : argument %d of call #%d to %s is `%s` *)\n", coqName, got == want, dir, recv, fn, arg, nth, callee, got)
+}
+
 func init() {
 	generators["FmtCAB_gen"] = func(o *out) {
 		// ------------------------------------------------------------------ CAB
@@ -494,11 +552,40 @@ func init() {
 		o.condOf(fd("zip_needs_zip64", "(end_count end_cdsize end_cdoffset : Z)", "bool"), "end.TotalCDCount")
 		o.condOf(fd("zip_no_locator", "(loc_sig : Z)", "bool"), "loc64.Signature")
 		o.condOf(fd("zip_no_end64", "(end64_sig : Z)", "bool"), "end64.Signature")
-		o.callOrder(z, "", "ZipToTar", "zip_tar_member_order", []string{"FindDirectory", "tarAddStream"})
-		o.fcCallArg(funcSpec{dir: z, recv: "", name: "ZipToTar", coqName: "zip_tar_cd_size", params: "(size dir_loc : Z)", retType: "Z",
-			leaves: map[string]string{"size": "size", "dirLoc": "dir_loc"}}, "tarAddStream", 0, 3)
-		o.fcCallArg(funcSpec{dir: z, recv: "", name: "ZipToTar", coqName: "zip_tar_zip_size", params: "(size dir_loc : Z)", retType: "Z",
-			leaves: map[string]string{"size": "size", "dirLoc": "dir_loc"}}, "tarAddStream", 1, 3)
+		// ZipToTar = ZipToTarTrailer with a literal zero trailer; ZipToTarTrailer looks for the directory in the first
+		// size-trailerLen bytes and puts [dirLoc, size) and [0, size) into the two tar members
+		o.fcCallArg(funcSpec{dir: z, recv: "", name: "ZipToTar", coqName: "zip_tar_plain_trailer", params: "", retType: "Z"}, "ZipToTarTrailer", 0, 2)
+		tl := map[string]string{"size": "size", "dirLoc": "dir_loc", "trailerLen": "trailer_len"}
+		tt := func(name, params, ret string) funcSpec {
+			return funcSpec{dir: z, recv: "", name: "ZipToTarTrailer", coqName: name, params: params, retType: ret, leaves: tl}
+		}
+		o.callOrder(z, "", "ZipToTarTrailer", "zip_tar_member_order", []string{"FindDirectory", "tarAddStream"})
+		o.condOf(tt("zip_tar_bad_trailer", "(trailer_len size : Z)", "bool"), "if:trailerLen")
+		o.fcCallArg(tt("zip_tar_find_size", "(size trailer_len : Z)", "Z"), "FindDirectory", 0, 1)
+		o.fcCallArg(tt("zip_tar_cd_from", "(dir_loc : Z)", "Z"), "io.NewSectionReader", 0, 1)
+		o.fcCallArg(tt("zip_tar_cd_len", "(size dir_loc : Z)", "Z"), "io.NewSectionReader", 0, 2)
+		o.fcCallArg(tt("zip_tar_cd_size", "(size dir_loc : Z)", "Z"), "tarAddStream", 0, 3)
+		o.fcCallArg(tt("zip_tar_zip_from", "", "Z"), "io.NewSectionReader", 1, 1)
+		o.fcCallArg(tt("zip_tar_zip_len", "(size : Z)", "Z"), "io.NewSectionReader", 1, 2)
+		o.fcCallArg(tt("zip_tar_zip_size", "(size dir_loc : Z)", "Z"), "tarAddStream", 1, 3)
+		// signxap.TrailerSize: how many bytes at the end of the file the XAP transform treats as an existing signature
+		kl := map[string]string{"size": "size", "tr.Magic": "tr_magic", "tr.TrailerSize": "tr_size"}
+		ts := func(name, params, ret string) funcSpec {
+			return funcSpec{dir: x, recv: "", name: "TrailerSize", coqName: name, params: params, retType: ret, leaves: kl}
+		}
+		o.condOf(ts("xap_ts_too_short", "(size : Z)", "bool"), "if:size", 0)
+		o.fcCallArg(ts("xap_ts_trailer_off", "(size : Z)", "Z"), "io.NewSectionReader", 0, 1)
+		o.fcCallArg(ts("xap_ts_trailer_len", "", "Z"), "io.NewSectionReader", 0, 2)
+		o.condOf(ts("xap_ts_no_trailer", "(tr_magic tr_size size : Z)", "bool"), "if:tr.Magic")
+		o.fcReturns(ts("xap_ts_returns", "(tr_size : Z)", "list Z"))
+		// the XAP transformer: trailer := signxap.TrailerSize(f, size) is what ZipToTarTrailer gets; Apply is ApplyBinPatch
+		const sx = "signers/xap"
+		o.callOrder(sx, "xapTransformer", "GetReader", "xap_tf_call_order", []string{"signxap.TrailerSize", "zipslicer.ZipToTarTrailer"})
+		o.hasStmt(sx, "xapTransformer", "GetReader", "trailer := signxap.TrailerSize(t.f, st.Size())", "xap_tf_trailer_from_trailer_size")
+		o.fcArgIs(sx, "xapTransformer", "GetReader", "zipslicer.ZipToTarTrailer", 0, 2, "trailer", "xap_tf_passes_trailer")
+		o.fcArgIs(sx, "xapTransformer", "GetReader", "zipslicer.ZipToTarTrailer", 0, 0, "t.f", "xap_tf_same_file")
+		o.hasStmt(sx, "xapTransformer", "Apply", "return signers.ApplyBinPatch(t.f, dest, result)", "xap_tf_apply_is_binpatch")
+		o.hasStmt(sx, "", "transform", "return &xapTransformer{f}, nil", "xap_tf_transform_is_xap")
 		xl := map[string]string{"totalSize": "total_size", "len(cd)": "cd_len", "bodySize": "body_size", "zipSize": "zip_size"}
 		dx := func(name, params, ret string) funcSpec {
 			return funcSpec{dir: x, recv: "", name: "DigestXapTar", coqName: name, params: params, retType: ret, leaves: xl}
@@ -554,10 +641,13 @@ func init() {
 		fingerprint(x, "", "Verify")
 		fingerprint(z, "", "FindDirectory")
 		fingerprint(z, "", "ZipToTar")
+		fingerprint(z, "", "ZipToTarTrailer")
+		fingerprint(x, "", "TrailerSize")
 		fingerprint(z, "", "tarAddStream")
 		fingerprint("signers/xap", "", "sign")
 		fingerprint("signers/xap", "", "verify")
-		fingerprint("signers/zipbased", "zipTransformer", "GetReader")
-		fingerprint("signers/zipbased", "zipTransformer", "Apply")
+		fingerprint("signers/xap", "", "transform")
+		fingerprint("signers/xap", "xapTransformer", "GetReader")
+		fingerprint("signers/xap", "xapTransformer", "Apply")
 	}
 }
